@@ -33,12 +33,15 @@ CONFIG = {
     'level_note': ('Trusted base: vmon/refsem.py (product construction), '
                    'vmon/pathsem.py (lasso evaluator) -- they must agree for '
                    'a case to be judged; neutral forms; CPython.'),
+    'internal_monitors': ['c02.atoms'],
     'deciding': ['c02.modelcheck'],
     'shards': {'quick': 16, 'thorough': 16},
     'hashseeds': {'quick': 4, 'thorough': 8},
     'min_evals': {'quick': {'c02.modelcheck': 15000, 'c02.atoms': 15000,
                             'c02.certificate': 5000},
                   'thorough': {'c02.modelcheck': 300000}},
+    'internal_sig': ['scc:self_fulfilling',
+                     'scc:rejected_not_self_fulfilling'],
     'must_sig': ['reach:_build_atoms:A_tail.append( atom | {Lang.Not(Lang.X(phi))',
                  'reach:_build_atoms:new_atom = atom | set([phi, Lang.X(LNot(sf))])',
                  'scc:self_fulfilling', 'scc:rejected_not_self_fulfilling',
@@ -253,7 +256,8 @@ def _attach_internal():
 
 def attach():
     mcwrap.attach()
-    mon.attach_once('c02.internal', _attach_internal)
+    mon.attach_once('c02.internal',
+                    lambda: mon.safe_internal(_attach_internal))
     if judge not in mcwrap.judges:
         mcwrap.judges.append(judge)
 
@@ -370,12 +374,8 @@ def finalize(reports, ctx):
     cov = {'reach': {k: {'lines': v['lines'], 'hit': v['hit'],
                          'never_reached': v['never_reached']}
                      for k, v in merged.items()}}
-    ev = {}
-    for need in CONFIG['must_sig']:
-        if need.startswith('reach:'):
-            _, label, text = need.split(':', 2)
-            if probes.reached(merged, label, text):
-                ev[need] = 1
+    ev, waived = probes.reach_sigs(merged, CONFIG['must_sig'])
+    cov['reach_requirements_waived'] = waived
     orders = set()
     for r in reports:
         for k in r['sig']:
